@@ -268,7 +268,7 @@ def runOp : P String := do
     let data ← ndarrTok (α := α)
     let spec ← stratTok (α := α)
     match build1 x data spec with
-    | .error e => pure (fmtFault e)
+    | .error e => do set ([] : List String); pure (fmtFault e)   -- the entry is not reached
     | .ok it => runEntry1 it
   | "i2" => do
     tagTok
@@ -277,7 +277,7 @@ def runOp : P String := do
     let data ← ndarrTok (α := α)
     let ext ← boolTok
     match build2 x y data ext with
-    | .error e => pure (fmtFault e)
+    | .error e => do set ([] : List String); pure (fmtFault e)
     | .ok it => runEntry2 it
   | t => throw s!"bad op {t}"
 
